@@ -134,7 +134,25 @@ static void drv_step(struct cmd *c)
 		size_t n = drv_uint(c, "n", 0);
 		ssize_t r = 0;
 		if (n > cur_len - cur_pos) n = cur_len - cur_pos;
-		if (n) r = mpt_stream_push(&ws, n, cur + cur_pos);
+		if (n && drv_has(c, "frags")) {
+			/* the same bytes handed over as a fragmented message (mpt_stream_append) */
+			size_t nf = 0, i, at = 0;
+			long long *fl = drv_ints(c, "frags", &nf);
+			struct iovec *vec = (struct iovec *) calloc(nf + 1, sizeof(*vec));
+			MPT_STRUCT(message) msg;
+			for (i = 0; i < nf; i++) {
+				vec[i].iov_base = cur + cur_pos + at;
+				vec[i].iov_len = (size_t) fl[i];
+				at += (size_t) fl[i];
+			}
+			msg.base = nf ? vec[0].iov_base : 0;
+			msg.used = nf ? vec[0].iov_len : 0;
+			msg.cont = vec + 1;
+			msg.clen = nf ? nf - 1 : 0;
+			r = (at == n) ? mpt_stream_append(&ws, &msg) : -1;
+			free(vec); free(fl);
+		}
+		else if (n) r = mpt_stream_push(&ws, n, cur + cur_pos);
 		cur_pos += n;
 		simple(c, (r < 0 || (size_t) r != n) ? "failed" : "ok");
 	}
@@ -144,18 +162,21 @@ static void drv_step(struct cmd *c)
 	}
 	else if (!strcmp(a, "flush")) {
 		size_t before = wire_len;
+		const char *via = drv_raw(c, "via");
 		int r, rounds = 0;
 		/* flush until nothing finished is left, relay reads what arrived */
 		do {
 			ssize_t got_n;
 			uint8_t tmp[4096];
-			r = mpt_stream_flush(&ws);
+			if (via && !strcmp(via, "poll")) { mpt_stream_poll(&ws, POLLOUT, -1); r = 0; }
+			else if (via && !strcmp(via, "poll0")) { mpt_stream_poll(&ws, POLLOUT, 0); r = 0; }
+			else r = mpt_stream_flush(&ws);
 			while ((got_n = read(wpair[1], tmp, sizeof(tmp))) > 0) {
 				if (wire_len + got_n > wire_cap) wire = (uint8_t *) realloc(wire, wire_cap = (wire_len + got_n) * 2 + 64);
 				memcpy(wire + wire_len, tmp, got_n);
 				wire_len += got_n;
 			}
-		} while (r >= 0 && ws._wd._state.done && ++rounds < 1000);
+		} while (r >= 0 && ws._wd._state.done && ++rounds < 50);
 		with_bytes(c, r < 0 ? "failed" : "ok", "out", wire ? wire + before : (uint8_t *) "", wire_len - before);
 	}
 	else if (!strcmp(a, "deliver")) {
